@@ -119,7 +119,7 @@ func (e *Env) loadContracts() error {
 		if info.IsDir() && (info.Name() == ".git" || info.Name() == "testdata") {
 			return filepath.SkipDir
 		}
-		if !info.IsDir() && info.Name() == "zz_contracts_verif.go" {
+		if !info.IsDir() && strings.HasPrefix(info.Name(), "zz_contracts") && strings.HasSuffix(info.Name(), "_verif.go") {
 			files = append(files, p)
 		}
 		return nil
